@@ -103,7 +103,7 @@ def typ(e: ast.expr, problems: List[str]) -> Optional[OT]:
     return None
 
 
-@rule("ORIENT", min_instances=3)
+@rule("ORIENT", min_instances=2)
 def rule_orient(ctx: Ctx) -> List[Ob]:
     """the history decoder of a checkpoint is the inverse of the encoder: increments are
     accumulated from the newest pair backwards, subtracted from the newest point, and the
@@ -112,10 +112,41 @@ def rule_orient(ctx: Ctx) -> List[Ob]:
     f = ctx.repo.func("main.initialize_X_and_G")
     obs: List[Ob] = []
     loops = [s for s in walk_no_nested(f.node) if isinstance(s, ast.For)]
-    need(len(loops) == 1, "initialize_X_and_G: expected one refill loop")
-    lp = loops[0]
     from ..flow import Expander
     ex = Expander(ctx, f)
+    if not loops:
+        # no refill loop: the histories are built from the whole decoded sequences at once --
+        # X = deque(<points>[, maxlen=..]) / X.extend(<points>): appended in iteration order, so oldest first is required
+        rets = [r for r in walk_no_nested(f.node) if isinstance(r, ast.Return) and isinstance(r.value, ast.Tuple) and len(r.value.elts) == 2]
+        need(rets, "initialize_X_and_G: neither a refill loop nor a returned (X, G) pair")
+        names = [src(e) for e in rets[-1].value.elts]
+        found = 0
+        for nm, want in zip(names, ("x", "jac")):
+            srcs = []
+            for s_ in walk_no_nested(f.node):
+                if isinstance(s_, (ast.Assign, ast.AnnAssign)) and getattr(s_, "value", None) is not None and \
+                        src(s_.targets[0] if isinstance(s_, ast.Assign) else s_.target) == nm and isinstance(s_.value, ast.Call) and \
+                        (dotted(s_.value.func) or "").split(".")[-1] in ("deque", "Deque") and s_.value.args:
+                    srcs.append((s_, s_.value.args[0]))
+                if isinstance(s_, ast.Expr) and isinstance(s_.value, ast.Call) and dotted(s_.value.func) == f"{nm}.extend" and s_.value.args:
+                    srcs.append((s_, s_.value.args[0]))
+            for s_, e_ in srcs:
+                problems: List[str] = []
+                e2 = ex.expand_at(s_, e_)
+                while isinstance(e2, ast.Call) and dotted(e2.func) in ("tuple", "list", "iter") and len(e2.args) == 1:
+                    e2 = e2.args[0]
+                t = typ(e2, problems)
+                if t is None and not problems:
+                    continue        # e.g. deque() / deque([x]) of the early exits
+                found += 1
+                ok = t is not None and t.kind == "pts" and t.base == want and t.order == CHRONO
+                obs.append(ob("ORIENT", f"decoder of the {want} history yields the visited points, oldest first", f, s_, ok,
+                              (f"typed as {t}" if ok else (problems[0] if problems else f"typed as {t}: a sequence appended in iteration order must be oldest first")),
+                              construct=short(e_, 100)))
+        need(found >= 2, "initialize_X_and_G: the decoder of the histories was not found")
+        return obs
+    need(len(loops) == 1, "initialize_X_and_G: expected one refill loop")
+    lp = loops[0]
     it = ex.expand_at(lp.iter, lp.iter)
     while isinstance(it, ast.Call) and dotted(it.func) in ("tuple", "list", "iter") and len(it.args) == 1:
         it = it.args[0]      # a materialised zip is iterated in the same order
